@@ -228,6 +228,7 @@ def run(prog: Program, ctx: Ctx) -> None:  # noqa: PLR0912,PLR0915
     n_hist = 0
     bad_seen: set[str] = set()
     for hist in _it.chain(_it.product(ops_, repeat=2), _it.product(ops_, repeat=3)):
+        itp.steps = 0  # the step budget is a per-history guard against non-termination, not a total
         cont = itp._construct(pcont, [mkp("a"), mkp("session")], {})
         model = ["a", "session"]
         problem = None
